@@ -562,6 +562,8 @@ impl Database {
         // This will reduce the lock time of map. It won't wait the notifyt time, we don't need to
         // wait for the update_watchers to release the key
         let (value, version) = {
+            #[cfg(feature = "verif")]
+            crate::verif::point("db.map:inc_value");
             let mut db = self.map.write().unwrap();
             match i32::from_str_radix(
                 &db.get(&key.to_string())
@@ -588,6 +590,8 @@ impl Database {
 
     pub fn list_keys(&self, pattern: &String, list_system_keys: bool) -> Vec<String> {
         let query_function = get_function_by_pattern(&pattern);
+        #[cfg(feature = "verif")]
+        crate::verif::point("db.map:list_keys");
         let mut keys: Vec<String> = {
             self.map
                 .read()
@@ -618,6 +622,8 @@ impl Database {
     }
 
     fn notify_watchers(&self, key: String, value: String, version: i32) {
+        #[cfg(feature = "verif")]
+        crate::verif::point("watchers.map:notify_watchers");
         let watchers = self.watchers.map.read().unwrap();
         match watchers.get(&key) {
             Some(senders) => {
@@ -658,6 +664,8 @@ impl Database {
                     if let Some(value) = self.get_value(key.clone()) {
                         // If deleted before the key is in disk remove direct from memory
                         if value.state == ValueStatus::New {
+                            #[cfg(feature = "verif")]
+                            crate::verif::point("db.map:remove_value");
                             let mut db = self.map.write().unwrap();
                             db.remove(&key);
                         } else {
@@ -674,6 +682,8 @@ impl Database {
                         }
                     }
                 } // Release the lock
+                #[cfg(feature = "verif")]
+                crate::verif::point("watchers.map:remove_value");
                 let mut watchers = self.watchers.map.write().unwrap();
                 match watchers.get_mut(&key) {
                     Some(senders) => {
@@ -695,6 +705,8 @@ impl Database {
     }
 
     pub fn get_value(&self, key: String) -> Option<Value> {
+        #[cfg(feature = "verif")]
+        crate::verif::point("db.map:get_value");
         let db = self.map.read().unwrap();
         if let Some(value) = db.get(&key.to_string()) {
             Some(Value {
@@ -721,6 +733,8 @@ impl Database {
         opp_id: u64,
     ) {
         {
+            #[cfg(feature = "verif")]
+            crate::verif::point("db.map:set_value_version");
             let mut db = self.map.write().unwrap();
             db.insert(
                 key.clone(),
@@ -737,6 +751,8 @@ impl Database {
     }
 
     pub fn watch_key(&self, key: &String, sender: &Sender<String>) -> Response {
+        #[cfg(feature = "verif")]
+        crate::verif::point("watchers.map:watch_key");
         let mut watchers = self.watchers.map.write().unwrap();
         let mut senders: Vec<Sender<String>> = match watchers.get(key) {
             Some(watchers_vec) => watchers_vec.clone(),
